@@ -1,0 +1,93 @@
+//go:build verif
+
+// Contracts for deductive verification (comment-only; read by /verif/govc, never compiled into the product).
+
+package controlcommands
+
+// ---------------------------------------------------------------------------------------------------------
+// C12: replies are attributed by command AND target: a reply touches the pending entry keyed by exactly
+// (its command id, its sender) and nothing else; unknown, late or duplicated replies touch nothing.
+
+// identity of a command / of the command a response answers (uninterpreted functions of the message)
+//@ ghost func cmdIdOf(c MesosCommand) xid.ID
+//@ ghost func respIdOf(r MesosCommandResponse) xid.ID
+//@ func (c MesosCommand) GetId() (id xid.ID)
+//@   noverify
+//@   pure
+//@   ensures id == cmdIdOf(c)
+//@ func (r MesosCommandResponse) GetCommandId() (id xid.ID)
+//@   noverify
+//@   pure
+//@   ensures id == respIdOf(r)
+
+//@ func (s *Servent) ProcessResponse(res MesosCommandResponse, sender MesosCommandTarget)
+//@   property C12
+//@   ghostvar looked *Call = nil
+//@   ghostvar lookedOk bool = false
+//@   ghostvar nLook int = 0
+//@   ghostvar nDel int = 0
+//@   on lookup controlcommands.Servent.pending : assert key.Id == respIdOf(res) && key.Target == sender && nLook == 0 ; looked = result0 ; lookedOk = result1 ; nLook = 1
+//@   on call delete : assert arg1.Id == respIdOf(res) && arg1.Target == sender && nLook == 1 && nDel == 0 ; nDel = 1
+//@   on store controlcommands.Call.Response : assert lookedOk && looked != nil && target == looked && value == res
+//@   on send * : assert lookedOk && looked != nil && nDel == 1
+//@   ensures nLook == 1 && nDel == 1
+
+// RunCommand registers exactly (command id, receiver) before sending, and on every path that does not end with the
+// reply being delivered (send error, timeout) removes exactly that key again.
+//@ func (s *Servent) RunCommand(cmd MesosCommand, receiver MesosCommandTarget) (resp MesosCommandResponse, err error)
+//@   property C12
+//@   ghostvar registered bool = false
+//@   ghostvar sent bool = false
+//@   ghostvar sendErr bool = false
+//@   ghostvar deleted bool = false
+//@   ghostvar timedOut bool = false
+//@   on mapupdate controlcommands.Servent.pending : assert key.Id == cmdIdOf(cmd) && key.Target == receiver && !registered && !sent ; registered = true
+//@   on call field.Servent.SendFunc : assert registered && !sent && arg0 == cmd && arg1 == receiver ; sent = true
+//@   on aftercall field.Servent.SendFunc : sendErr = (result != nil)
+//@   on call delete : assert arg1.Id == cmdIdOf(cmd) && arg1.Target == receiver && sent && !deleted ; deleted = true
+//@   on store controlcommands.Call.Error : assert sent && !sendErr ; timedOut = true
+//@   ensures sent
+//@   ensures sendErr ==> deleted && err != nil && resp == nil
+//@   ensures timedOut ==> deleted
+
+// commit: one goroutine per target; each sends the single-target copy of the command made for ITS receiver and posts
+// exactly one result carrying ITS receiver; the collector files every result under the receiver it carries.
+//@ ghost func targetsOf(c MesosCommand) []MesosCommandTarget
+//@ func (c MesosCommand) targets() (t []MesosCommandTarget)
+//@   noverify
+//@   pure
+//@   ensures t == targetsOf(c)
+
+//@ closure (*CommandQueue).commit #1
+//@   property C12
+//@   ghostvar made bool = false
+//@   ghostvar ran bool = false
+//@   ghostvar posts int = 0
+//@   on call .MakeSingleTarget : assert arg0 == receiver && !made ; made = true
+//@   on call (*Servent).RunCommand : assert made && arg2 == receiver && !ran ; ran = true
+//@   on send * : assert ran && value.receiver == receiver && posts == 0 ; posts = posts + 1
+//@   ensures posts == 1
+
+//@ func (m *CommandQueue) commit(command MesosCommand) (response MesosCommandResponse, err error)
+//@   property C12
+//@   goframes
+//@   ghostvar spawned int = 0
+//@   ghostvar got int = 0
+//@   ghostvar filed int = 0
+//@   ghostvar lastRecv MesosCommandTarget = noTarget()
+//@   on go (*CommandQueue).commit$1 : assert arg0 == targetsOf(command)[#i + 1] ; spawned = spawned + 1
+//@   on recv * : got = got + 1 ; lastRecv = value.receiver
+//@   on mapupdate responses : assert key == lastRecv && filed + 1 == got ; filed = filed + 1
+//@   loop 1 invariant spawned == #i + 1 && #i < len(targetsOf(command)) && got == 0 && filed == 0
+//@   loop 2 invariant got == i && filed == i && spawned == len(targetsOf(command)) && i >= 0 && i <= len(targetsOf(command))
+//@   ensures m != nil ==> spawned == len(targetsOf(command))
+//@   ensures m != nil ==> got == spawned
+//@   ensures m != nil ==> filed == got
+//@ ghost func noTarget() MesosCommandTarget
+
+// consolidateResponses: nothing -> nil; one answer -> that answer; several -> a multi-response over exactly that map
+//@ func consolidateResponses(command MesosCommand, responses map[MesosCommandTarget]MesosCommandResponse) (r MesosCommandResponse)
+//@   property C12 C02
+//@   ensures old(len(responses)) == 0 ==> r == nil
+//@   ensures old(len(responses)) == 1 && r != nil ==> old(exists k MesosCommandTarget :: (k in responses) && r == responses[k])
+//@   ensures old(len(responses)) > 1 ==> r is *MesosCommandMultiResponse && r.(*MesosCommandMultiResponse).responses == responses
